@@ -60,11 +60,11 @@ SIZES = {I32: 4, I64: 8, U8: 1, U32: 4, 'std::uint64_t': 8, 'std::uint16_t': 2, 
 
 
 def scalar(cpp):
-    return {'cpp': cpp, 'sig': ('SCALAR', cpp), 'integral': cpp in SIZES, 'size': SIZES.get(cpp)}
+    return {'cpp': cpp, 'sig': ('SCALAR', cpp), 'integral': cpp in SIZES, 'size': SIZES.get(cpp), 'ty': ('scalar', cpp)}
 
 
 def string():
-    return {'cpp': STR, 'sig': ('STR', 1), 'integral': False}
+    return {'cpp': STR, 'sig': ('STR', 1), 'integral': False, 'ty': ('scalar', STR)}
 
 
 def seq_sig(elem, count, cap=None):
@@ -75,79 +75,93 @@ def seq_sig(elem, count, cap=None):
 
 
 def vector(e):
-    return {'cpp': 'std::vector<%s>' % e['cpp'], 'sig': seq_sig(e, None), 'integral': False}
+    return {'cpp': 'std::vector<%s>' % e['cpp'], 'sig': seq_sig(e, None), 'integral': False, 'ty': ('seq', 'vector', e, None)}
 
 
 def array(e, n):
-    return {'cpp': 'std::array<%s, %d>' % (e['cpp'], n), 'sig': seq_sig(e, n), 'integral': False}
+    return {'cpp': 'std::array<%s, %d>' % (e['cpp'], n), 'sig': seq_sig(e, n), 'integral': False, 'ty': ('seq', 'array', e, n)}
 
 
 def carray(e, n):
-    return {'cpp': '%s[%d]' % (e['cpp'], n), 'sig': seq_sig(e, n), 'integral': False}
+    return {'cpp': '%s[%d]' % (e['cpp'], n), 'sig': seq_sig(e, n), 'integral': False, 'ty': ('seq', 'carray', e, n)}
 
 
 def tup(*es):
-    return {'cpp': 'std::tuple<%s>' % ', '.join(e['cpp'] for e in es), 'sig': ('ARY', ('hetero', tuple(e['sig'] for e in es))), 'integral': False}
+    return {'cpp': 'std::tuple<%s>' % ', '.join(e['cpp'] for e in es), 'sig': ('ARY', ('hetero', tuple(e['sig'] for e in es))), 'integral': False, 'ty': ('tuple', es)}
 
 
 def pair(a, b):
-    return {'cpp': 'std::pair<%s, %s>' % (a['cpp'], b['cpp']), 'sig': ('ARY', ('hetero', (a['sig'], b['sig']))), 'integral': False}
+    return {'cpp': 'std::pair<%s, %s>' % (a['cpp'], b['cpp']), 'sig': ('ARY', ('hetero', (a['sig'], b['sig']))), 'integral': False, 'ty': ('pair', (a, b))}
 
 
 def mapof(kind, k, v):
-    return {'cpp': 'std::%s<%s, %s>' % (kind, k['cpp'], v['cpp']), 'sig': ('MAP', k['sig'], v['sig']), 'integral': False}
+    return {'cpp': 'std::%s<%s, %s>' % (kind, k['cpp'], v['cpp']), 'sig': ('MAP', k['sig'], v['sig']), 'integral': False, 'ty': ('map', k, v)}
 
 
 def wrap(e):
-    return {'cpp': 'W<%s>' % e['cpp'], 'sig': e['sig'], 'integral': False}     # a value wrapper shares the wrapped encoding
+    return {'cpp': 'W<%s>' % e['cpp'], 'sig': e['sig'], 'integral': False, 'ty': ('wrap', e)}     # a value wrapper shares the wrapped encoding
+
+
+def lbuf(arr):
+    """the logical buffer a (data, size) member pair denotes; not a C++ type of its own"""
+    return {'cpp': 'LogicalBuffer<%s>' % arr['cpp'], 'sig': None, 'integral': False, 'ty': ('lbuf', arr)}
+
+
+def cref(e):
+    """`const T&` as it appears in a function signature: the same type after decay"""
+    d = dict(e)
+    d['cpp'] = 'const %s&' % e['cpp']
+    return d
 
 
 def lb(form, e, n, s):
-    return {'cpp': '%s<%s, %d, %s>' % (form, e['cpp'], n, s), 'sig': ('STU', (seq_sig(e, None, n),)), 'integral': False}
+    return {'cpp': '%s<%s, %d, %s>' % (form, e['cpp'], n, s), 'sig': ('STU', (seq_sig(e, None, n),)), 'integral': False,
+            'ty': ('struct', (lbuf(carray(e, n) if form == 'LBc' else array(e, n)),))}
 
 
 def wb(e, n):
-    return {'cpp': 'WB<%s, %d>' % (e['cpp'], n), 'sig': seq_sig(e, None, n), 'integral': False}
+    return {'cpp': 'WB<%s, %d>' % (e['cpp'], n), 'sig': seq_sig(e, None, n), 'integral': False, 'ty': ('wrap', lbuf(array(e, n)))}
 
 
 def wa(e, n):
-    return {'cpp': 'WA<%s, %d>' % (e['cpp'], n), 'sig': seq_sig(e, n), 'integral': False}
+    return {'cpp': 'WA<%s, %d>' % (e['cpp'], n), 'sig': seq_sig(e, n), 'integral': False, 'ty': ('wrap', carray(e, n))}
 
 
 def struct(name, *members):
-    return {'cpp': name, 'sig': ('STU', tuple(m['sig'] for m in members)), 'integral': False}
+    return {'cpp': name, 'sig': ('STU', tuple(m['sig'] for m in members)), 'integral': False, 'ty': ('struct', members)}
 
 
 def opt(e):
-    return {'cpp': 'nop::Optional<%s>' % e['cpp'], 'sig': ('OPT', e['sig']), 'integral': False}
+    return {'cpp': 'nop::Optional<%s>' % e['cpp'], 'sig': ('OPT', e['sig']), 'integral': False, 'ty': ('opt', e)}
 
 
 def res(err, e):
-    return {'cpp': 'nop::Result<%s, %s>' % (err, e['cpp']), 'sig': ('RES', err, e['sig']), 'integral': False}
+    return {'cpp': 'nop::Result<%s, %s>' % (err, e['cpp']), 'sig': ('RES', err, e['sig']), 'integral': False, 'ty': ('res', err, e)}
 
 
 def var(*es):
-    return {'cpp': 'nop::Variant<%s>' % ', '.join(e['cpp'] for e in es), 'sig': ('VAR', tuple(e['sig'] for e in es)), 'integral': False}
+    return {'cpp': 'nop::Variant<%s>' % ', '.join(e['cpp'] for e in es), 'sig': ('VAR', tuple(e['sig'] for e in es)), 'integral': False, 'ty': ('var', es)}
 
 
 def table(name, hashname, entries, deleted=()):
-    return {'cpp': name, 'sig': ('TAB', hashname, tuple(sorted((i, e['sig'], i not in deleted) for i, e in entries))), 'integral': False}
+    return {'cpp': name, 'sig': ('TAB', hashname, tuple(sorted((i, e['sig'], i not in deleted) for i, e in entries))), 'integral': False,
+            'ty': ('table', hashname, tuple(ent(e, i, i not in deleted) for i, e in entries))}
 
 
 def ent(e, i, active=True):
-    return {'cpp': 'nop::Entry<%s, %d%s>' % (e['cpp'], i, '' if active else ', nop::DeletedEntry'), 'sig': ('ENT', i, active, e['sig']), 'integral': False}
+    return {'cpp': 'nop::Entry<%s, %d%s>' % (e['cpp'], i, '' if active else ', nop::DeletedEntry'), 'sig': ('ENT', i, active, e['sig']), 'integral': False, 'ty': ('ent', i, active, e)}
 
 
 def fn(ret, *args):
     return {'cpp': '%s(%s)' % (ret['cpp'] if ret else 'void', ', '.join(a['cpp'] for a in args)),
-            'sig': ('SIG', ret['sig'] if ret else ('VOID',), tuple(a['sig'] for a in args)), 'integral': False, 'function': True}
+            'sig': ('SIG', ret['sig'] if ret else ('VOID',), tuple(a['sig'] for a in args)), 'integral': False, 'function': True, 'ty': ('fn', ret, args)}
 
 
 def catalogue():
     i32, i64, u8, u32 = scalar(I32), scalar(I64), scalar(U8), scalar(U32)
     s = string()
-    f32 = {'cpp': 'float', 'sig': ('SCALAR', 'float'), 'integral': False}
-    e8 = {'cpp': 'E8', 'sig': ('SCALAR', 'E8'), 'integral': False}
+    f32 = {'cpp': 'float', 'sig': ('SCALAR', 'float'), 'integral': False, 'ty': ('scalar', 'float')}
+    e8 = {'cpp': 'E8', 'sig': ('SCALAR', 'E8'), 'integral': False, 'ty': ('scalar', 'E8')}
     b = scalar('bool')
     wi, ws = wrap(i32), wrap(s)
     c = [b, u8, i32, u32, i64, f32, e8, s,
@@ -168,7 +182,9 @@ def catalogue():
          table('TD', 'cat.T', [(1, s), (2, s)]), table('TE', 'cat.T', [(1, i32), (2, s)], deleted=(1,)),
          table('TF', 'cat.T', [(1, wi), (2, s)], deleted=(1,)),
          ent(i32, 1), ent(wi, 1), ent(i32, 1, False), ent(wi, 1, False), ent(i32, 2), ent(s, 1),
-         fn(i32, i32, s), fn(i32, wi, s), fn(None, vector(i32)), fn(None, array(i32, 3)), fn(i32, s, i32)]
+         fn(i32, i32, s), fn(i32, wi, s), fn(None, vector(i32)), fn(None, array(i32, 3)), fn(i32, s, i32),
+         fn(i32, cref(s), i32), fn(None, cref(vector(i32))), fn(i32, cref(i32), cref(s)),
+         tup(vector(i32), f32), tup(array(i32, 3), f32), pair(vector(i32), f32), tup(wi, s), array(tup(i32, s), 2), vector(pair(wi, s))]
     return c
 
 
@@ -192,6 +208,53 @@ def documented(c):
         ('void(std::vector<std::int32_t>)', 'void(std::array<std::int32_t, 3>)'),
     ]
     return [(idx[a], idx[b]) for a, b in pairs]
+
+
+def doc(a, b):
+    """does the documentation (getting-started.md "Fungible Types", the comments of is_fungible.h) declare the two types fungible?
+    a, b: catalogue entries.  This is the documented relation written down once, by type constructor; it is deliberately not the
+    wire relation (`compat`), which is larger."""
+    x, y = a['ty'], b['ty']
+    decay = lambda e: e['cpp'][6:-1] if e['cpp'].startswith('const ') and e['cpp'].endswith('&') else e['cpp']
+    if decay(a) == decay(b):
+        return True
+    if x[0] == 'wrap' or y[0] == 'wrap':
+        return doc(x[1] if x[0] == 'wrap' else a, y[1] if y[0] == 'wrap' else b)
+    same_format = lambda p, q: p['integral'] == q['integral']
+    all2 = lambda ps, qs: len(ps) == len(qs) and all(doc(p, q) for p, q in zip(ps, qs))
+    if x[0] == 'seq' and y[0] == 'seq':
+        fixed = x[3] is not None and y[3] is not None
+        return doc(x[2], y[2]) and same_format(x[2], y[2]) and (not fixed or x[3] == y[3])
+    if x[0] == 'map' and y[0] == 'map':
+        return doc(x[1], y[1]) and doc(x[2], y[2])
+    if x[0] in ('tuple', 'pair') and y[0] in ('tuple', 'pair'):
+        return all2(x[1], y[1])
+    if {x[0], y[0]} == {'seq', 'tuple'}:
+        s_, t_ = (x, y) if x[0] == 'seq' else (y, x)
+        if s_[2]['integral'] or (s_[3] is not None and s_[3] != len(t_[1])):
+            return False
+        return all(doc(s_[2], q) for q in t_[1])
+    if x[0] == 'lbuf' and y[0] == 'lbuf':
+        return doc(x[1], y[1])
+    if {x[0], y[0]} == {'lbuf', 'seq'}:
+        l_, s_ = (x, b) if x[0] == 'lbuf' else (y, a)
+        return s_['ty'][1] == 'vector' and doc(l_[1], s_)
+    if x[0] == 'struct' and y[0] == 'struct':
+        return all2(x[1], y[1])
+    if x[0] == 'opt' and y[0] == 'opt':
+        return doc(x[1], y[1])
+    if x[0] == 'res' and y[0] == 'res':
+        return x[1] == y[1] and doc(x[2], y[2])
+    if x[0] == 'var' and y[0] == 'var':
+        return all2(x[1], y[1])
+    if x[0] == 'ent' and y[0] == 'ent':
+        return x[1] == y[1] and x[2] == y[2] and doc(x[3], y[3])
+    if x[0] == 'table' and y[0] == 'table':
+        return x[1] == y[1] and all2(x[2], y[2])
+    if x[0] == 'fn' and y[0] == 'fn':
+        rx, ry = x[1], y[1]
+        return ((rx is None) == (ry is None)) and (rx is None or doc(rx, ry)) and all2(x[2], y[2])
+    return False
 
 
 def compat(a, b):
